@@ -69,7 +69,7 @@ class Form(object):
   def __repr__(self):
     parts = []
     for k, v in sorted(self.t.items(), key=lambda kv: repr(kv[0])):
-      name = k[1] if k[0] == 'cell' else 'relu(%s)' % (k[1],)
+      name = k[1] if k[0] == 'cell' else '%s(%s)' % (k[0], k[1],)
       parts.append('%s*%s' % (v, name) if v != 1 else str(name))
     if self.c or not parts:
       parts.append(str(self.c))
